@@ -323,3 +323,65 @@ theorem splitT_formatDate (d : Date) (tt : Str) : splitT (formatDate d ++ 84 :: 
   simp
 
 end RTV.DtPeriod
+
+/-! ### `parse_duration` flag by flag (equation lemmas; proofs kept to `if`-reduction + `rfl` so that the kernel check is
+cheap) -/
+namespace RTV.DtPeriod
+open RTV.Cal RTV.DateUtils RTV.WF RTV.Periods
+
+def pastRes (R : DateTime) (s : Nat) (tx : Str) : Res :=
+  ofOpt ((addSeconds R (-(s : Int))).bind fun b => some (.ok (triple (luisPoint b) (luisPoint R) tx) b R b R))
+def futureRes (R : DateTime) (s : Nat) (tx : Str) : Res :=
+  ofOpt ((addSeconds R (s : Int)).bind fun e => some (.ok (triple (luisPoint R) (luisPoint e) tx) R e R e))
+
+theorem some_bind' {α β} (a : α) (f : α → Option β) : (some a >>= f) = f a := rfl
+
+theorem pd_prevBefore (R : DateTime) (s : Nat) (tx : Str) :
+    parseDuration R s tx ⟨true, false, false, false, false, false, false⟩ = pastRes R s tx := by
+  unfold parseDuration pastRes
+  simp only [Bool.false_eq_true, if_false, if_true]
+  cases addSeconds R (-(s : Int)) <;> rfl
+theorem pd_prevAfter (R : DateTime) (s : Nat) (tx : Str) :
+    parseDuration R s tx ⟨false, false, false, false, true, false, false⟩ = pastRes R s tx := by
+  unfold parseDuration pastRes
+  simp only [Bool.false_eq_true, if_false, if_true]
+  repeat rw [some_bind']
+  cases addSeconds R (-(s : Int)) <;> rfl
+theorem pd_within (R : DateTime) (s : Nat) (tx : Str) :
+    parseDuration R s tx ⟨false, true, false, false, false, false, false⟩ = futureRes R s tx := by
+  unfold parseDuration futureRes
+  simp only [Bool.false_eq_true, if_false, if_true]
+  repeat rw [some_bind']
+  cases addSeconds R (s : Int) <;> rfl
+theorem pd_future (R : DateTime) (s : Nat) (tx : Str) :
+    parseDuration R s tx ⟨false, false, false, true, false, false, false⟩ = futureRes R s tx := by
+  unfold parseDuration futureRes
+  simp only [Bool.false_eq_true, if_false, if_true]
+  repeat rw [some_bind']
+  cases addSeconds R (s : Int) <;> rfl
+theorem pd_futureAfter (R : DateTime) (s : Nat) (tx : Str) :
+    parseDuration R s tx ⟨false, false, false, false, false, true, false⟩ = futureRes R s tx := by
+  unfold parseDuration futureRes
+  simp only [Bool.false_eq_true, if_false, if_true]
+  repeat rw [some_bind']
+  cases addSeconds R (s : Int) <;> rfl
+theorem pd_futureSuffix (R : DateTime) (s : Nat) (tx : Str) :
+    parseDuration R s tx ⟨false, false, false, false, false, false, true⟩ = futureRes R s tx := by
+  unfold parseDuration futureRes
+  simp only [Bool.false_eq_true, if_false, if_true]
+  repeat rw [some_bind']
+  cases addSeconds R (s : Int) <;> rfl
+theorem pd_withinNext (R : DateTime) (s : Nat) (tx : Str) :
+    parseDuration R s tx ⟨false, true, false, true, false, false, false⟩ = futureRes R s tx := by
+  unfold parseDuration futureRes
+  simp only [Bool.false_eq_true, if_false, if_true]
+  repeat rw [some_bind']
+  cases addSeconds R (s : Int) <;> rfl
+theorem pd_none (R : DateTime) (s : Nat) (tx : Str) :
+    parseDuration R s tx ⟨false, false, false, false, false, false, false⟩ =
+      .ok (triple (luisPoint R) (luisPoint R) tx) R R R R := by
+  unfold parseDuration
+  simp only [Bool.false_eq_true, if_false]
+  rfl
+
+end RTV.DtPeriod
